@@ -214,6 +214,14 @@ def tab_idx(run):
             d = describe_origin(qp, o)
             if not ("HashMap" in d and "get" in d):
                 bad_w.append((st["span"]["line"], d))
+    # ... and the array as a whole is only initialised before the probing loop, never again inside it
+    in_loop = set()
+    for h in qp.reachable():
+        in_loop |= natural_loop(qp, h)
+    for bi, si, st in qp.stmts():
+        if st["k"] == "assign" and not st["place"]["p"] and "RuledefMapEntry" in qp.local_ty(st["place"]["l"]) and qp.local_ty(st["place"]["l"]).startswith("[") \
+                and bi in in_loop:
+            bad_w.append((st["span"]["line"], "whole result array re-assigned inside the loop"))
     run.check(nw >= 1 and not bad_w, R, R + "|buckets-kept", qp.loc(), "query_prefixed only ever stores map hits into its result (%d store site(s)): no bucket is dropped" % nw,
               "query_prefixed overwrites result buckets with something other than a map hit (line %s): candidates of some prefix length would be dropped, so the index is no longer a superset of the full scan" % [x[0] for x in bad_w])
     # (4) reader and pattern parser admit tokens by the same predicate
@@ -716,6 +724,34 @@ def sk_provider(run):
         for w in sorted(writers):
             run.check(w in fns, R, "SK|flag-writer|%s|%s" % (fld, w), prog.fn(w).loc(), "%s sets %s (audited)" % (w, fld),
                       "%s sets `%s` but is not an audited writer: the flag must come from the static analysis of the item's expression" % (w, fld))
+
+
+def sk_match_locals(run, R="SK"):
+    """get_match_statically_known: a rule parameter is declared `value known` to the rule body only behind the true answer of the
+    static analysis of its argument (is_value_statically_known for an expression, the same function for a nested match)"""
+    from rules_sym import deep
+    f = run.anchor(R, "asm::matcher::get_match_statically_known")
+    if f is None:
+        return
+    guards = []
+    for bi, t in f.calls():
+        c = t.get("resolved") or t.get("callee") or ""
+        if c == f.id or c.endswith("Expr::is_value_statically_known") or c.endswith("expr::inspect::<impl expr::expression::Expr>::is_value_statically_known"):
+            bt = T.bool_test(f, t)
+            if bt is not None:
+                guards.append((bt[2], bt[0], c))
+    ins = [(bi, t) for bi, t in f.calls() if re.search(r"HashMap::<.*>::insert$", t.get("callee") or "") and deep(f, t["args"][0], 4).endswith(".locals")]
+    bad = []
+    for bi, t in ins:
+        val = deep(f, t["args"][2], 4)
+        if "value_known: 0" in val or "value_known: false" in val:
+            continue
+        if not any(f.edge_dominates(sb, tr, bi) for sb, tr, c in guards):
+            bad.append(f.loc(t["span"]))
+    kinds = set("nested" if c == f.id else "expr" for _, _, c in guards)
+    run.check(len(ins) >= 2 and not bad and kinds == {"nested", "expr"}, R, "SK|match|locals-known", f.loc(),
+              "get_match_statically_known: every parameter marked `value known` (%d site(s)) is behind the true answer of is_value_statically_known / the recursive analysis of the nested match" % len(ins),
+              "get_match_statically_known: a parameter is marked `value known` without the static analysis of its argument saying so (%s; guards found: %s): a rule body using an operand whose value depends on labels would be frozen after the first pass" % (bad or "-", sorted(kinds)))
 
 
 def _straight(f, b, limit=6):
